@@ -63,9 +63,11 @@ def bytes_to_blocks(
     found_names = ToArgs(names)
     # We count all the arg names as "found", since we will always preserve them in the
     # args
-    found_varnames = ToArgs(varnames, {i: i for i in range(len(args.parameters))})
+    found_varnames = ToArgs(varnames)
+    for i in range(len(args.parameters)):
+        found_varnames.found_index(i)
     found_cellvars = ToArgs(cellvars)
-    found_constants = ToArgs(constants)
+    found_constants = ToArgs(constants, _hash_fn=constant_key)
 
     # If we have a function block and a docstring, the first constant is the docstring.
     if isinstance(block_type, Function) and block_type.docstring is not None:
@@ -375,12 +377,24 @@ class ToArgs(Generic[T]):
     # Mapping of the actual index argument to the position it was
     # found
     _index_to_order: dict[int, int] = field(default_factory=dict)
+    # Mapping of the key of an arg (the one FromArgs uses to look up args it has
+    # already seen) to the last index that arg was found at
+    _key_to_index: dict[Hashable, int] = field(default_factory=dict)
+    _hash_fn: Callable[[T], Hashable] = field(default=hash)
 
     def found_index(self, index: int) -> tuple[T, Optional[int]]:
+        arg = self._args[index]
         if index not in self._index_to_order:
-            self._index_to_order[index] = len(self._args)
-        wrong_position = self._index_to_order[index] != index
-        return self._args[index], index if wrong_position else None
+            self._index_to_order[index] = len(self._index_to_order)
+        key = self._hash_fn(arg)
+        # The index has to be saved if FromArgs would not come up with it by itself,
+        # either by counting the args or by finding an equal arg it has already seen
+        wrong_position = (
+            self._index_to_order[index] != index
+            or self._key_to_index.get(key, index) != index
+        )
+        self._key_to_index[key] = index
+        return arg, index if wrong_position else None
 
     def __len__(self) -> int:
         return len(self._args)
